@@ -8,7 +8,8 @@ func init() {
 			"(E1b) every write/armed read of a field in the guarded-by table, and every call of a requires-lock function, happens with the lock in the must-held set (meet over all call paths from API entry points, goroutine starts and callbacks); " +
 			"(E1c) the management loop is never re-entered (mgmtOperation) and no WaitGroup is awaited while a lock its signallers need may be held; " +
 			"(E1d/E1e) goroutines that own a WaitGroup slot signal it on every exit and every goroutine start matches a recognised termination idiom; " +
-			"(E2d) Serialize/Len/String-style read-only methods of objects shared between goroutines do not write through their receiver.",
+			"(E2d) Serialize/Len/String-style read-only methods of objects shared between goroutines do not write through their receiver; " +
+			"(E1b.active-destination / mac-index-handle) active destinations are only touched under their shard lock; (E6.identity-delete) a peer is removed from the registry only if the registry still holds that very peer.",
 		Not: "Races on state outside the guarded-by table, channel-induced deadlocks other than the two rules, lost wake-ups, liveness/quiescence and actual goroutine termination are not decided; lock classes are per field, not per instance.",
 		Run: func(c *Ctx) {
 			c.ruleLockOrder()
@@ -16,6 +17,9 @@ func init() {
 			c.ruleGuarded("E1b.guarded", guardTable, 150)
 			c.ruleRequires("E1b.requires", requiresTable, 15)
 			c.rulePurity("E2d.pure", []string{"pkg/packet/bgp"}, 500)
+			c.ruleMacIndexHandles()
+			c.ruleActiveDestinations()
+			c.ruleIdentityDelete()
 		},
 	})
 }
